@@ -17,6 +17,7 @@ set_option linter.unusedSectionVars false
 set_option linter.unusedVariables false
 
 variable {F : Type} [Scalar F]
+variable {fa : List (Nat × Nat)}
 
 /-! ## 1. Who writes the grace deadline -/
 
@@ -25,8 +26,8 @@ theorem takeBatch_grace (l : FLink F) (now : Nat) : (l.takeBatch now).1.graceDea
   split <;> rfl
 
 theorem fwdLink_grace (l : FLink F) (pkt : Link.Bytes) (seq : Option Nat) (now : Nat) (fn : List Nat) :
-    (Hk.fwdLink l pkt seq now fn).1.graceDeadline = l.graceDeadline ∨
-    (Hk.fwdLink l pkt seq now fn).1.graceDeadline = 0 := by
+    (Hk.fwdLink fa l pkt seq now fn).1.graceDeadline = l.graceDeadline ∨
+    (Hk.fwdLink fa l pkt seq now fn).1.graceDeadline = 0 := by
   unfold Hk.fwdLink
   split
   · dsimp only
@@ -37,8 +38,8 @@ theorem fwdLink_grace (l : FLink F) (pkt : Link.Bytes) (seq : Option Nat) (now :
   · left; rfl
 
 theorem probeLink_grace (l : FLink F) (pkt : Link.Bytes) (seq : Option Nat) (now : Nat) (fn : List Nat) :
-    (Hk.probeLink l pkt seq now fn).1.graceDeadline = l.graceDeadline ∨
-    (Hk.probeLink l pkt seq now fn).1.graceDeadline = 0 := by
+    (Hk.probeLink fa l pkt seq now fn).1.graceDeadline = l.graceDeadline ∨
+    (Hk.probeLink fa l pkt seq now fn).1.graceDeadline = 0 := by
   have hp : l.stallProbeDue.1.graceDeadline = l.graceDeadline := by
     unfold FLink.stallProbeDue
     dsimp only
@@ -155,6 +156,7 @@ theorem step_grace_nonhk (s : Sys F) (e : Ev) (j : Nat) (l : FLink F) (hl : s.li
   | setCfg cfg => exact ⟨l, hl, Or.inl rfl⟩
   | crit d => exact ⟨l, hl, Or.inl rfl⟩
   | failNext cid => exact ⟨l, hl, Or.inl rfl⟩
+  | failAfter cid kfa => exact ⟨l, hl, Or.inl rfl⟩
   | failBind cid => exact ⟨l, hl, Or.inl rfl⟩
   | stamp idx weak ld ccb cct =>
     refine ⟨Hk.stampOne idx weak ld ccb cct j l, ?_, Or.inl ?_⟩
